@@ -9,13 +9,13 @@ import mpi_common
 
 def run(tier, seed):
     chk = vlib.Check("C08", tier, seed)
-    n = 160 if tier == "quick" else 5000
+    n = 160 if tier == "quick" else 2500
     cases = sim_common.make_cases("C08", tier, seed, n, variants=(0, 0, 1, 2, 0, 3, 0, 1), fp_levels=(2, 10, 3, 1, 10, 2, 3), sizes=(0,),
                                   gvts=[0, 20, 1000, 0, 200, 50, 1000, 5000], threads=[2, 3, 4, 2, 8, 2, 12, 5, 3, 4, 2, 6])
     recs = sim_common.run_sim_cases(chk, cases, timeout=200, retries=0)
     # multi-rank shutdown: ranks leave the main loop at different moments, control messages may still be in flight
     chk.soft_fraction = 0.3
-    mcases = mpi_common.make_cases("C08", tier, seed, 36 if tier == "quick" else 600, variants=(0, 1, 2, 0, 3), fault_rates=(0, 40, 0),
+    mcases = mpi_common.make_cases("C08", tier, seed, 36 if tier == "quick" else 300, variants=(0, 1, 2, 0, 3), fault_rates=(0, 40, 0),
                                    layouts=[(2, 2), (3, 2), (2, 1), (3, 1), (2, 3), (4, 1)], gvts=[1000, 0, 200, 5000, 20])
     mrecs = mpi_common.run_mpi_cases(chk, mcases, timeout=30 if tier == "quick" else 90, retries=0)
     chk.stats["mpi_runs_returned"] = sum(1 for c, r, t, a in mrecs if not a)
